@@ -23,6 +23,7 @@ type Builder struct {
 	Types  []reflect.Type // pointer types, declaration order
 	ByName map[string]reflect.Type
 	impls  map[reflect.Type][]reflect.Type
+	long   int
 }
 
 func New(reg []ast.Node) *Builder {
@@ -73,9 +74,23 @@ func (b *Builder) Build(name string, seed uint64, depth int) ast.Node {
 	return b.build(t, r, depth).Interface().(ast.Node)
 }
 
+// BuildLong is Build, except that every node-slice field of the root gets exactly long elements (leaf instances).
+func (b *Builder) BuildLong(name string, seed uint64, depth, long int) ast.Node {
+	t, ok := b.ByName[name]
+	if !ok {
+		return nil
+	}
+	r := &rng{s: seed}
+	b.long = long
+	defer func() { b.long = 0 }()
+	return b.build(t, r, depth).Interface().(ast.Node)
+}
+
 func (b *Builder) build(pt reflect.Type, r *rng, depth int) reflect.Value {
 	v := reflect.New(pt.Elem())
 	s := v.Elem()
+	long := b.long
+	b.long = 0 // only the root's slices are long
 	for i := 0; i < s.NumField(); i++ {
 		f := s.Type().Field(i)
 		if !f.IsExported() {
@@ -99,9 +114,13 @@ func (b *Builder) build(pt reflect.Type, r *rng, depth int) reflect.Value {
 		case ft.Kind() == reflect.Slice && astx.IsNodeType(ft.Elem()):
 			if depth > 0 {
 				n := r.n(4)
+				cd := depth - 1
+				if long > 0 {
+					n, cd = long, 0
+				}
 				sl := reflect.MakeSlice(ft, 0, n)
 				for k := 0; k < n; k++ {
-					if c, ok := b.child(ft.Elem(), r, depth-1); ok {
+					if c, ok := b.child(ft.Elem(), r, cd); ok {
 						sl = reflect.Append(sl, c)
 					}
 				}
